@@ -581,6 +581,24 @@ class RatFunc:
     def is_poly(self):
         return self.den.is_const()
 
+    def cancel_monomial(self):
+        """Divide numerator and denominator by the denominator when it is a single
+        monomial dividing every numerator term."""
+        if len(self.den.t) != 1:
+            return self
+        (dk, dc), = self.den.t.items()
+        dd = dict(dk)
+        t = {}
+        for k, v in self.num.t.items():
+            m = dict(k)
+            for a, p in dd.items():
+                if m.get(a, 0) < p:
+                    return self
+                m[a] -= p
+            key = tuple(sorted((a, p) for a, p in m.items() if p))
+            t[key] = t.get(key, 0) + v / dc
+        return RatFunc(Poly(t))
+
     def show(self):
         if self.den.is_const():
             return self.num.show()
@@ -1151,3 +1169,35 @@ def simplify_max0(e, pos=(), nn=()):
         if zeros and len(rest) == 1 and nonneg(rest[0], pos, nn):
             return rest[0]
     return e2
+
+
+def divisible(e, f, expand_logs=False):
+    """Sufficient syntactic proof that integer expression e is a multiple of f:
+    e / f normalises to a polynomial with integer coefficients over atoms."""
+    try:
+        r = (ratfunc(e, expand_logs) * ratfunc(f, expand_logs).inv()).cancel_monomial()
+    except Inconclusive:
+        return False
+    if not r.is_poly():
+        return False
+    return all(v.denominator == 1 for v in r.num.t.values())
+
+
+def find_witness(pred_expr, domain, limit=20000):
+    """First valuation (from the product of ``domain`` candidate lists) at which the
+    boolean/numeric expression evaluates truthy.  Returns dict or None."""
+    names = sorted(domain)
+    cands = [list(domain[n]) for n in names]
+    count = 0
+    for point in itertools.product(*cands):
+        count += 1
+        if count > limit:
+            break
+        env = dict(zip(names, [Fraction(v) if isinstance(v, int) else v for v in point]))
+        try:
+            v = evaluate(pred_expr, env)
+        except (Inconclusive, ZeroDivisionError, decimal.InvalidOperation):
+            continue
+        if _truth(v):
+            return {k: _show_val(x) for k, x in env.items()}
+    return None
